@@ -41,6 +41,19 @@ impl Driven for D {
          _ => panic!("verif harness: unknown relation {}", rel),
       }
    }
+   fn clear(&mut self, rel: &str) {
+      match rel {
+         "e" => { self.0.e = Default::default(); },
+         "f" => { self.0.f = Default::default(); },
+         "dom" => { self.0.dom = Default::default(); },
+         "off" => { self.0.off = Default::default(); },
+         "obf" => { self.0.obf = Default::default(); },
+         "ofb" => { self.0.ofb = Default::default(); },
+         "obb" => { self.0.obb = Default::default(); },
+         "two" => { self.0.two = Default::default(); },
+         _ => panic!("verif harness: unknown relation {}", rel),
+      }
+   }
    fn run(&mut self) { self.0.run(); }
    fn dump(&self) -> Value {
       let mut m: Vec<(String, Value)> = vec![];
